@@ -430,7 +430,9 @@ func runC05(e *Engine, r *Report) {
 			}
 			if rg, ok := in.(*ssa.Range); ok {
 				if _, isMap := rg.X.Type().Underlying().(*types.Map); isMap {
-					hasRange = true
+					if oi, _ := e.orderIndependentRange(rg); !oi {
+						hasRange = true
+					}
 				}
 			}
 		})
@@ -451,4 +453,6 @@ func runC05(e *Engine, r *Report) {
 	ruleSessionLookupSource(e, r)
 	borrow(e, r, "C12", "PAIR-pool")
 	ruleSessionRegisterResult(e, r)
+	ruleSessionSaveComplete(e, r)
+	ruleSessionBytesWritten(e, r)
 }
